@@ -132,6 +132,19 @@ theorem dce_preserves_syn (F : GFile) (D : Names) (body : List GStmt) (ρ : GEnv
     hsem hrun hdef
 
 open Goml.Sem in
+/-- the same with dead field projections admitted: `inertSyn true` also accepts `e.f` where the
+    static type of `e` is not a pointer (`inertSyn_sound_field`: a struct value is never nil, and
+    `Go.Sem` has no rule — `stuck`, not a panic — for a nil value of a non-pointer type) -/
+theorem dce_preserves_syn_field (F : GFile) (D : Names) (body : List GStmt) (ρ : GEnv) (w : GWorld) (n : Nat)
+    (r : GRes (GEnv × Sig)) (hblank : ¬ "_" ∈ keys ρ)
+    (hscope : scopeErrs D (keys ρ) body = []) (hshape : shapeOK body = true)
+    (hsem : semOK (inertSyn true) body [] = true)
+    (hrun : execBlockG n F ρ w body = r) (hdef : Definite r) :
+    ∃ m r', execBlockG m F ρ w (dceBody body) = r' ∧ ResRel [] [] r' r :=
+  dce_preserves_body F D (inertSyn true) (fun e h => inertSyn_sound_field F e h) body ρ w n r hblank hscope hshape
+    hsem hrun hdef
+
+open Goml.Sem in
 /-- fuel does not matter once it suffices: two runs of the same block that did not stop for lack
     of fuel give the same result (from fuel monotonicity) -/
 theorem dce_output_unique (F : GFile) (ρ : GEnv) (w : GWorld) (ss : List GStmt) (m1 m2 : Nat)
@@ -253,8 +266,8 @@ example : "main" ∈ Goml.Gen.dceRoots := by decide
 /-! ## (e) the whole pass on a whole file -/
 
 /-- the contract of `dce_file_preserves` (decidable; `Model/Dce.lean`): every function of the file
-    satisfies the contract of `dce_preserves_syn` for the parameter environment of a call (no `_`
-    parameter, `scopeErrs = []` w.r.t. its parameters, `shapeOK`, `semOK (inertSyn false)`), and
+    satisfies the contract of `dce_preserves_syn_field` for the parameter environment of a call (no `_`
+    parameter, `scopeErrs = []` w.r.t. its parameters, `shapeOK`, `semOK (inertSyn true)`), and
     function names are pairwise distinct -/
 def FileDceOK (F : GFile) : Prop := fileDceOK F = true
 
